@@ -73,6 +73,9 @@ class Zoo(object):
                 for p in self.s3_prefixes:
                     kw = dict(read_only=False)
                     kw.update(self.s3_kwargs)
+                    if isinstance(p, (tuple, list)):      # (prefix, extra constructor arguments)
+                        p, extra = p
+                        kw.update(extra)
                     self._add(wrap(S3TapeCassette)(BUCKET, key_prefix=p, **kw), 's3[%r]' % p)
             else:
                 raise ValueError(kind)
